@@ -6,7 +6,7 @@
    true, as well).  The statements about the lookups before that commit are kept at the end as
    history. *)
 From Coq Require Import List NArith ZArith Bool Permutation.
-From PV Require Import Model.Symbols Proofs.Symbols Proofs.SymbolsSpec Proofs.SymbolsSeq.
+From PV Require Import Model.Symbols Proofs.Symbols Proofs.SymbolsSpec Proofs.SymbolsSeq Proofs.SymbolsH.
 Import ListNotations.
 
 (* ---- same collisions as one compile (parts imported one after another on the shared table) ---- *)
@@ -51,6 +51,24 @@ Theorem C16_import_commutes :
     (forall n, lookup T2 n = lookup T1 n) /\ (forall m t, lookup_ext T2 m t = lookup_ext T1 m t).
 Proof. exact import_commutes_lemma. Qed.
 Print Assumptions C16_import_commutes.
+
+(* the same for either kind of handler (fail-fast, or collecting: the reporter returns nil), a fresh
+   handler per import: some import reports or returns an error exactly when the set collides *)
+Theorem C16_failed_eq_has_collision_any_handler :
+  forall m fs,
+    wf_universe (closure_list fs) ->
+    any_failH (snd (run_opsH m [] (map OImport fs))) = has_collision fs.
+Proof. exact failed_eq_has_collisionH_lemma. Qed.
+Print Assumptions C16_failed_eq_has_collision_any_handler.
+
+Theorem C16_import_commutes_any_handler :
+  forall m fs fs',
+    wf_universe (closure_list fs) -> Permutation fs fs' -> ~ collides (closure_list fs) ->
+    (forall n, lookup (fst (run_opsH m [] (map OImport fs'))) n = lookup (fst (run_opsH m [] (map OImport fs))) n) /\
+    (forall mn t, lookup_ext (fst (run_opsH m [] (map OImport fs'))) mn t
+                  = lookup_ext (fst (run_opsH m [] (map OImport fs))) mn t).
+Proof. exact import_commutesH_lemma. Qed.
+Print Assumptions C16_import_commutes_any_handler.
 
 (* the hypothesis is decidable by wf_universe_b, which the check evaluates on every generated case *)
 Theorem C16_wf_universe_b_sound : forall U, wf_universe_b U = true -> wf_universe U.
